@@ -51,3 +51,11 @@ Proof. intros fs v H. apply merge_total; [intros f _; apply dsl_to_model_no_pani
 
 Theorem C08_merge_total_for_all_files : forall fs v, NoDup (map mf_name fs) -> is_panic (merge fs v) = false.
 Proof. exact merge_total_unconditional. Qed.
+
+(* "A syntax error in the input is always reported": for the lexer, by counting — every character of the input is in
+   exactly one token or is reported as exactly one lexer error, for every input and through every mode switch; a
+   character no rule accepts cannot disappear silently *)
+From Verif Require Import Proofs.LexPartition.
+Theorem C08_every_character_is_a_token_or_an_error : forall s,
+  (length (concat (map ttext (fst (lex_all s)))) + length (snd (lex_all s)) = length s)%nat.
+Proof. exact lex_all_accounts_for_every_character. Qed.
